@@ -42,15 +42,33 @@
                               id inserted by `pre` or by the plan has been released (`gone`) and
                               everything its script holds — the output of a future, the items of a
                               stream, in order — was yielded by the group (a sublist of `yielded`).
+    `C01_group_mix_delivers_remove`  plans WITH `remove` (`Op.isMembership`): in that final state
+                              every id inserted by `pre` or by the plan has delivered everything its
+                              script holds (a sublist of `yielded`), OR it was removed by the
+                              consumer — the trace, NEWEST FIRST, contains `removed key true` directly
+                              on top of `childDropped c`.  (`…_bound`: the same final state as in
+                              `C01_group_mix_ends`, within the same bound; every inserted id was
+                              released.)
     `C01_runMix_nil`          sanity: with the empty plan the executor is `ExecGAny.runForB`, and
                               `C01_group_ends_busy` is the instance `plan = []` (same bound).
 
   `remove` and delivery: a removed member is dropped with scripted steps left, which never are
   consumed (the measure of `C01_group_mix_ends` simply keeps counting them); its values are of course
-  not delivered.  The invariant behind the delivery statement (`LiveGStuck.WGS.lf`: a member is
-  released only when its script is exhausted) is false after a `remove`, so
-  `C01_group_mix_delivers` is stated for plans without `remove`; the statement for the members that
-  were not removed is kept below as `C01_group_mix_delivers_remove_statement` (not proved).
+  not delivered.  How the model logs a `remove` (`GEng.remove`, Fc/Groups.lean): through the key `k`
+  the `j`-th `insert` returned; if `k` is still in the key set, the two events `childDropped c`,
+  `removed k true` are emitted one directly after the other (`c` = the CURRENT occupant of slot `k`,
+  which for a stale key is a later member — it is that member which is removed), plain and keyed
+  groups alike (`keyed` only changes the key reported in `Some(key, _)`); if the member inserted
+  under `k` has already resolved / ended and the slot was not reused, the key is gone from the key
+  set, nothing is dropped and only `removed k false` is logged.  The invariant behind
+  `C01_group_mix_delivers` (`LiveGStuck.WGS.lf`: a member is released only when its script is
+  exhausted) is false after a `remove`; `C01_group_mix_delivers_remove` replaces it by the
+  disjunction "released ⇒ no scripted step left, or the `childDropped` has `removed _ true` directly
+  on top of it", which is a fact about the World alone (scripts and trace): it needs nothing about
+  the slab, the readiness bits or the wakers, and holds for ANY plan of membership operations
+  (FcLemmas/LiveGMixRemove.lean, `DQ`).  The facts about the group that are needed at the end — an
+  inserted id that was not released is still a member, `yielded` = the values the members produced —
+  are those of the invariant of `C01_group_mix_ends`, carried along the run once more.
 
   Proof (FcLemmas/LiveGMix*.lean).  Between two entries the run is a run of C01liveGAny and its
   invariants (`LRW` / `LRA ids ins`) apply unchanged; the round-by-round form of the budget argument
@@ -63,6 +81,7 @@
   steps of the new ids; the consumer's poll is `LiveGMix.poll_cond`.
 -/
 import FcLemmas.LiveGMixDeliver
+import FcLemmas.LiveGMixRemove
 import FcProps.C01liveGAny
 import Fc.Holds
 
@@ -120,9 +139,8 @@ theorem C01_group_mix_delivers (pick : Nat → Eng Grp → Nat)
   exact ⟨k, hk, h1, h2, LiveGMix.members_nil _ h3, h4⟩
 
 /-- the delivery statement for plans WITH `remove`: every inserted id has delivered everything its
-    script holds, unless the consumer removed it (read off the trace, NEWEST FIRST: its
-    `childDropped` is immediately followed by `removed _ true`).  NOT proved — see the header — kept
-    as a statement. -/
+    script holds, unless the consumer removed it (read off the trace, NEWEST FIRST: `removed _ true`
+    sits directly on top of its `childDropped`).  Proved below: `C01_group_mix_delivers_remove`. -/
 def C01_group_mix_delivers_remove_statement : Prop :=
   ∀ (pick : Nat → Eng Grp → Nat) (bef aft : Nat → Eng Grp → List (Nat × Nat)) (r : Nat)
     (stream keyed : Bool) (m : Mode) (scripts : Nat → List Step) (pre : List Op)
@@ -144,6 +162,42 @@ def C01_group_mix_delivers_remove_statement : Prop :=
         ∃ key t, [Ev.removed key true, Ev.childDropped c] ++ t <:+
           (ExecGMix.runMix pick bef aft k r plan
             (pre.foldl GEng.step (GEng.init stream keyed m scripts))).1.w.trace
+
+/-- delivery for plans with `remove` -/
+theorem C01_group_mix_delivers_remove : C01_group_mix_delivers_remove_statement := by
+  intro pick bef aft r stream keyed m scripts pre plan hpre hplan hfresh hs
+  obtain ⟨k, _, h1, h2, _, h4⟩ := LiveGMix.group_mix_delivers_remove stream keyed m scripts pre plan
+    hpre hplan hfresh hs pick bef aft r
+  exact ⟨k, h1, h2, fun c hc => (h4 c hc).2⟩
+
+/-- … in the final state of `C01_group_mix_ends` (same bound), where moreover every inserted id has
+    been released -/
+theorem C01_group_mix_delivers_remove_bound (pick : Nat → Eng Grp → Nat)
+    (bef aft : Nat → Eng Grp → List (Nat × Nat)) (r : Nat)
+    (stream keyed : Bool) (m : Mode) (scripts : Nat → List Step) (pre : List Op)
+    (plan : ExecGMix.Plan)
+    (hpre : ∀ op ∈ pre, op.isInsertLike = true)
+    (hplan : ∀ op ∈ ExecGMix.Plan.ops plan, op.isMembership = true)
+    (hfresh : ((pre ++ ExecGMix.Plan.ops plan).flatMap insertedIds).Nodup)
+    (hs : ∀ c ∈ (pre ++ ExecGMix.Plan.ops plan).flatMap insertedIds,
+      (if stream then streamScript (scripts c) else Exec.futureScript (scripts c)) = true) :
+    let e0 := pre.foldl GEng.step (GEng.init stream keyed m scripts)
+    let planSteps := (((ExecGMix.Plan.ops plan).flatMap insertedIds).map
+      (fun c => (scripts c).length)).sum
+    ∃ k, k ≤ 3 * (ExecG.stepsLeft e0 + planSteps) + 1 + 2 * plan.length ∧
+      (ExecGMix.runMix pick bef aft k r plan e0).2 = [] ∧
+      Mon.lastOut (ExecGMix.runMix pick bef aft k r plan e0).1.w.trace = some .none ∧
+      ExecGAny.members (ExecGMix.runMix pick bef aft k r plan e0).1 = [] ∧
+      ∀ c ∈ (pre ++ ExecGMix.Plan.ops plan).flatMap insertedIds,
+        Mon.gone (ExecGMix.runMix pick bef aft k r plan e0).1.w.trace c = true ∧
+        ((Exec.scriptVals (scripts c)).reverse.Sublist
+            (Mon.yielded (ExecGMix.runMix pick bef aft k r plan e0).1.w.trace) ∨
+          ∃ key t, [Ev.removed key true, Ev.childDropped c] ++ t <:+
+            (ExecGMix.runMix pick bef aft k r plan e0).1.w.trace) := by
+  intro e0 planSteps
+  obtain ⟨k, hk, h1, h2, h3, h4⟩ := LiveGMix.group_mix_delivers_remove stream keyed m scripts pre
+    plan hpre hplan hfresh hs pick bef aft r
+  exact ⟨k, hk, h1, h2, LiveGMix.members_nil _ h3, h4⟩
 
 /-! ### sanity: the empty plan -/
 
@@ -316,6 +370,29 @@ example : (∀ k, k ≤ 8 →
     (∀ k, k ≤ 7 →
       Exec.finalOut (Mon.lastOut (C01liveGMix_fout .direct k).1.w.trace) = false) := by decide
 
+set_option maxRecDepth 100000 in
+/-- `C01_group_mix_delivers_remove` on this run.  Std mode: the removed member 5 has NOT delivered
+    (its output 50 is not among the yielded values) and is excused by the second disjunct — witness:
+    key 2 and the trace as it was before the entry (after round 3); the members that were not
+    removed have delivered, and no `removed _ true` sits on top of their `childDropped` (for 9: the
+    only `removed _ true` of the trace is the one of 5).  Direct mode: the stale handle 0 removes
+    member 9 as well — `removed 0 true` on top of `childDropped 9` (below them the events of
+    `remove 2; insert 11` of the same entry); 90 is not delivered. -/
+example : ¬ (Exec.scriptVals (C01liveGMix_fut 5)).reverse.Sublist
+      (Mon.yielded (C01liveGMix_fout .std 9).1.w.trace) ∧
+    [Ev.removed 2 true, Ev.childDropped 5] ++ (C01liveGMix_fout .std 3).1.w.trace <:+
+      (C01liveGMix_fout .std 9).1.w.trace ∧
+    (∀ c ∈ [7, 3, 9, 11], (Exec.scriptVals (C01liveGMix_fut c)).reverse.Sublist
+      (Mon.yielded (C01liveGMix_fout .std 9).1.w.trace)) ∧
+    (C01liveGMix_fout .std 9).1.w.trace.count (.removed 2 true) = 1 ∧
+    (C01liveGMix_fout .std 9).1.w.trace.contains (.removed 0 true) = false ∧
+    (C01liveGMix_fout .std 9).1.w.trace.contains (.removed 1 true) = false ∧
+    ¬ (Exec.scriptVals (C01liveGMix_fut 9)).reverse.Sublist
+      (Mon.yielded (C01liveGMix_fout .direct 8).1.w.trace) ∧
+    [Ev.removed 0 true, Ev.childDropped 9] ++ ([.inserted 11 2, .removed 2 true, .childDropped 5] ++
+        (C01liveGMix_fout .direct 3).1.w.trace) <:+
+      (C01liveGMix_fout .direct 8).1.w.trace := by decide
+
 /-- the hypothesis on the ids the plan inserts is needed: a member inserted in the middle of the
     drain that stays `Pending` for ever leaves the executor stuck (plan performed, `Pending`, not
     woken, nobody to prod) -/
@@ -338,5 +415,7 @@ end Fc
 
 #print axioms Fc.C01_group_mix_ends
 #print axioms Fc.C01_group_mix_delivers
+#print axioms Fc.C01_group_mix_delivers_remove
+#print axioms Fc.C01_group_mix_delivers_remove_bound
 #print axioms Fc.C01_runMix_nil
 #print axioms Fc.C01_group_ends_busy_again
